@@ -40,12 +40,12 @@ Proof.
     + (* nothing in flight *)
       destruct (ct nv) eqn:Ct.
       * (* CtIdle *)
-        exists (ABegin v (ins c v)). split; [exact Hv|]. simpl. rewrite <- Env, Ct.
+        exists (ABegin v (fsort c (ins c v))). split; [exact Hv|]. simpl. rewrite <- Env, Ct.
         destruct (slen c v); [destruct (Nat.ltb _ _); discriminate|].
-        rewrite is_perm_refl by apply nodup_ins. discriminate.
+        rewrite is_perm_fsort by apply nodup_ins. rewrite par_sorted_fsort. discriminate.
       * (* CtRecv *)
         destruct todo as [|y todo].
-        { exists (AEndRound v). split; [exact Hv|]. simpl. rewrite <- Env, Ct. discriminate. }
+        { exists (AEndRound v). split; [exact Hv|]. simpl. rewrite <- Env, Ct. destruct saw; simpl; discriminate. }
         destruct (Nat.ltb (rcv (es s y)) (snt (es s y))) eqn:Hq.
         { exists (ARecv v). split; [exact Hv|]. simpl. rewrite <- Env, Ct, Hq. discriminate. }
         destruct (clo (es s y)) eqn:Hc.
